@@ -14,7 +14,7 @@ import (
 
 func init() {
 	register("C20",
-		"Structural conformance of common.AsyncMapReduce to the ack-and-join protocol: obligations A1..A10 over the SSA form of the function and its goroutine literals (map called once per item with an iteration-private argument; one acknowledgement per item; single reducer goroutine; Done only after the effect; Add(len) before spawning; Wait dominates return; done-handshake before channels close; results read after join; nothing else touches the channels). Together these imply map-once, serial reduce, join before return, all errors returned and no leaked goroutine (hand argument in DESIGN §3 R1). It is a shape check of the source, not an observation of executions.",
+		"Structural conformance of common.AsyncMapReduce to the ack-and-join protocol: obligations A1..A10 over the SSA form of the function and its goroutine literals (map called once per item with an iteration-private argument; one acknowledgement per item; single reducer goroutine; Done only after the effect; Add(len) before spawning; Wait dominates return; done-handshake before channels close; results read after join; nothing else touches the channels). Together these imply map-once, serial reduce, join before return, every worker error handed to the error-list extension and no leaked goroutine (hand argument in DESIGN §3 R1). NOT implied: that every item is either reduced or visible in the returned error list — the extension (gqlerrors.ExtendErrorList → FormatError) adds nothing for a non-nil error that is an empty or typed-nil ErrorList, so such an item is neither reduced nor reported and a positional accumulator slot stays unfilled (fourth audit, AMR-C1). It is a shape check of the source, not an observation of executions.",
 		ruleAMR)
 }
 
@@ -25,6 +25,39 @@ type amr struct {
 
 	payload, accP, mapP, redP *ssa.Parameter
 	rule                      string
+
+	// pre: blocks of the helper that run before any goroutine is started (not reachable from a
+	// spawn site). emptyRets: returns in such blocks that are taken only for an empty payload.
+	pre       map[*ssa.BasicBlock]bool
+	emptyRets map[*ssa.Return]bool
+
+	note string // appended to the reasons of violations (context of a re-used sub-check)
+}
+
+// setPre computes pre and emptyRets from the spawn sites (instructions of the helper's body).
+func (a *amr) setPre(spawns ...ssa.Instruction) {
+	a.pre = map[*ssa.BasicBlock]bool{}
+	a.emptyRets = map[*ssa.Return]bool{}
+	after := map[*ssa.BasicBlock]bool{}
+	for _, sp := range spawns {
+		if sp == nil || sp.Parent() != a.fn {
+			return
+		}
+		after[sp.Block()] = true
+		for b := range blockReach(sp.Block()) {
+			after[b] = true
+		}
+	}
+	for _, b := range a.fn.Blocks {
+		if !after[b] && b != a.fn.Recover {
+			a.pre[b] = true
+		}
+	}
+	for _, ret := range returnsOf(a.fn) {
+		if a.pre[ret.Block()] && a.underEmptyPayload(ret.Block()) {
+			a.emptyRets[ret] = true
+		}
+	}
 }
 
 // root resolves a value to the set of values it can originate from, looking through
@@ -127,6 +160,50 @@ func (a *amr) cell(addr ssa.Value) ssa.Value {
 	return addr
 }
 
+// deferredOnly: lit is a literal of the helper that is entered only through `defer` statements
+// of the helper itself (or of literals that are themselves deferred-only): its body runs on the
+// caller's goroutine when the helper returns.
+func (a *amr) deferredOnly(lit *ssa.Function) bool {
+	for depth := 0; depth < 4; depth++ {
+		if lit == nil || lit == a.fn {
+			return lit == a.fn && depth > 0
+		}
+		ent := a.entrySites(lit)
+		if len(ent) == 0 {
+			return false
+		}
+		var par *ssa.Function
+		for _, e := range ent {
+			if _, isDefer := e.(*ssa.Defer); !isDefer {
+				return false
+			}
+			if par != nil && par != e.Parent() {
+				return false
+			}
+			par = e.Parent()
+		}
+		lit = par
+	}
+	return false
+}
+
+// wgOf resolves the receiver of a WaitGroup method to the wait group it denotes: the cell of
+// a `var wg sync.WaitGroup` (possibly captured), or the allocation a pointer variable
+// `wg := &sync.WaitGroup{}` / `new(sync.WaitGroup)` holds (the variable has one value).
+func (a *amr) wgOf(v ssa.Value) ssa.Value {
+	c := a.cell(v)
+	if _, ok := c.(*ssa.Alloc); ok {
+		return c
+	}
+	rs := a.roots(c)
+	if len(rs) == 1 {
+		if al, ok := rs[0].(*ssa.Alloc); ok {
+			return al
+		}
+	}
+	return c
+}
+
 // entrySites returns the go/call/defer instructions (anywhere in the function family)
 // whose callee value is the literal lit.
 func (a *amr) entrySites(lit *ssa.Function) []ssa.CallInstruction {
@@ -220,7 +297,7 @@ func (a *amr) bad(ob, construct string, at ssa.Instruction, why string) {
 			site = a.r.P.pos(at.Parent().Pos())
 		}
 	}
-	a.r.Bad(a.rule+"."+ob, fn, construct, site, why)
+	a.r.Bad(a.rule+"."+ob, fn, construct, site, why+a.note)
 }
 func (a *amr) ok(ob, construct string, at ssa.Instruction, why string) {
 	site := "-"
@@ -251,6 +328,7 @@ func ruleAMR(r *Run) {
 		return
 	}
 	a := &amr{r: r, fn: fn, all: withClosures(fn), rule: rule}
+	r.Assume("R1 shows that every error a worker receives from mapFunc reaches the error-list extension before the join; it does not show that the extension records it: gqlerrors.FormatError yields no entry for a non-nil error that is an empty (or typed-nil) ErrorList, in which case the item is neither reduced nor reported (callers that index the accumulator by position then find a nil slot)")
 	if len(fn.Params) != 4 {
 		a.bad("anchor", "signature", nil, "helper no longer has the four parameters (payload, acc, mapFunc, reduceFunc)")
 		return
@@ -351,6 +429,15 @@ func ruleAMR(r *Run) {
 			}
 			if ci, ok := ins.(ssa.CallInstruction); ok {
 				c := ci.Common()
+				switch cn := calleeName(c); cn {
+				case "(*sync.WaitGroup).Add", "(*sync.WaitGroup).Done", "(*sync.WaitGroup).Wait":
+					// the obligations order these calls by their position; a deferred (or spawned)
+					// one runs somewhere else: `defer wg.Wait()` joins after the done handshake,
+					// `defer wg.Done()` in the reducer acknowledges only when the reducer returns
+					if _, plain := ins.(*ssa.Call); !plain {
+						a.bad("A10", "deferred-sync", ins, cn+" is deferred or started with go: it does not run where it stands, so the ordering obligations (Add before the spawns, Done after the effect, Wait before the handshake and the returns) say nothing about it")
+					}
+				}
 				switch calleeName(c) {
 				case "builtin:close":
 					closes = append(closes, ci)
@@ -404,11 +491,22 @@ func ruleAMR(r *Run) {
 		return
 	}
 	ent := a.entrySites(W)
-	if len(ent) != 1 || ent[0].Parent() != fn {
-		a.bad("A1", "worker-entry-sites", S, fmt.Sprintf("the worker literal is entered from %d sites; exactly one spawn in the helper body is required", len(ent)))
+	// the spawn sits in the helper's body, or in the body of a literal that a library iterator
+	// calls once per element of payload (lo.ForEach(payload, func(item, i) { go … }))
+	var iter *itemIterator
+	if len(ent) == 1 && ent[0].Parent() != fn {
+		iter = a.itemIteratorOf(ent[0])
+	}
+	if len(ent) != 1 || (ent[0].Parent() != fn && iter == nil) {
+		a.bad("A1", "worker-entry-sites", S, fmt.Sprintf("the worker literal is entered from %d sites; exactly one spawn in the helper body (or in the callback of a per-element iterator over payload) is required", len(ent)))
 		return
 	}
 	G = ent[0]
+	// Gtop: the instruction of the helper's own body that stands for "the workers are started"
+	var Gtop ssa.Instruction = G
+	if iter != nil {
+		Gtop = iter.call
+	}
 	if _, isGo := G.(*ssa.Go); !isGo {
 		// a synchronous call is still map-once; accept but note
 		r.Notes = append(r.Notes, "worker is invoked synchronously (not with go)")
@@ -421,8 +519,28 @@ func ruleAMR(r *Run) {
 		a.ok("A1", "mapFunc-call", S, "single call site, on every entry→exit path of the worker, not in a cycle")
 	}
 	// the spawn must be executed exactly once per element of payload
-	loop := loopBlocks(G.Block())
-	lp := a.payloadLoop(G, loop)
+	var loop map[*ssa.BasicBlock]bool
+	var lp *payloadLoop
+	if iter != nil {
+		loop = map[*ssa.BasicBlock]bool{}
+		lp = &payloadLoop{header: iter.call.Block(), iter: iter}
+		if blockInCycle(iter.call.Block()) {
+			a.bad("A1", "iterator-in-loop", iter.call, "the per-element iterator over payload is itself called in a loop: several workers per item")
+			return
+		}
+		if blockInCycle(G.Block()) {
+			a.bad("A1", "spawn-in-inner-loop", G, "the worker spawn lies in a loop inside the iterator callback: several workers per item")
+			return
+		}
+		if okp, at := mustPass(iter.lit.Blocks[0], 0, func(i ssa.Instruction) bool { return i == ssa.Instruction(G) }); !okp {
+			a.bad("A1", "spawn-skipped", at, "a path through the iterator callback returns without spawning the worker: an item is never mapped and Wait never returns")
+			return
+		}
+		a.ok("A1", "payload-loop", iter.call, "worker spawned exactly once per element: the spawn is on every path of the callback that "+iter.name+" calls once for every element of payload")
+	} else {
+		loop = loopBlocks(G.Block())
+		lp = a.payloadLoop(G, loop)
+	}
 	if lp == nil {
 		return
 	}
@@ -566,6 +684,13 @@ func ruleAMR(r *Run) {
 	}
 	Sr := redCalls[0]
 	R := Sr.Parent()
+	if R == fn && len(wgAdd)+len(wgDone)+len(wgWait) == 0 && len(gos) == 1 {
+		// no reducer goroutine and no wait group: the caller itself collects one
+		// acknowledgement per item and reduces between the receives
+		a.collectorForm(&collectorIn{S: S, W: W, G: G, Gtop: Gtop, Sr: Sr, lp: lp, loop: loop, cRes: cRes, cErr: cErr,
+			sends: sends, selects: selects, recvs: recvs, closes: closes, makeChans: makeChans, chanOf: chanOf})
+		return
+	}
 	if R == W || R == fn {
 		a.bad("A3", "reduce-context", Sr, "reduceFunc is not called from a dedicated reducer goroutine (called from a worker or the caller): reductions can overlap or run concurrently with workers")
 		return
@@ -580,6 +705,7 @@ func ruleAMR(r *Run) {
 		a.bad("A3", "reducer-spawned-in-loop", Gr, "the reducer is spawned inside a loop: several reducers would run concurrently")
 		return
 	}
+	a.setPre(Gtop, Gr)
 	if _, isGo := Gr.(*ssa.Go); !isGo {
 		a.bad("A3", "reducer-not-goroutine", Gr, "the reducer is not started with go: the caller would block before Wait")
 		return
@@ -590,7 +716,11 @@ func ruleAMR(r *Run) {
 		a.bad("A3", "acc-cell", Sr, "could not identify the accumulator cell")
 		return
 	}
-	rc := Sr.(*ssa.Call)
+	rc, isPlainCall := Sr.(*ssa.Call)
+	if !isPlainCall {
+		a.bad("A3", "reduceFunc-call-kind", Sr, "reduceFunc is started with go/defer instead of being called by the reducer: reductions can overlap and the result is not threaded into acc")
+		return
+	}
 	accOK := false
 	if len(rc.Call.Args) == 2 {
 		if ld, ok := unwrap(rc.Call.Args[0]).(*ssa.UnOp); ok && ld.Op == token.MUL && a.cell(ld.X) == ssa.Value(accCell) {
@@ -630,7 +760,7 @@ func ruleAMR(r *Run) {
 	}
 	var wgCell ssa.Value
 	if len(wgWait) == 1 {
-		wgCell = a.cell(wgWait[0].Common().Args[0])
+		wgCell = a.wgOf(wgWait[0].Common().Args[0])
 	}
 	if wgCell == nil {
 		a.bad("A6", "wait-sites", nil, fmt.Sprintf("%d calls of WaitGroup.Wait; exactly one is required", len(wgWait)))
@@ -638,7 +768,7 @@ func ruleAMR(r *Run) {
 	}
 	isDone := func(i ssa.Instruction) bool {
 		for _, d := range wgDone {
-			if ssa.Instruction(d) == i && a.cell(d.Common().Args[0]) == wgCell {
+			if ssa.Instruction(d) == i && a.wgOf(d.Common().Args[0]) == wgCell {
 				return true
 			}
 		}
@@ -652,7 +782,32 @@ func ruleAMR(r *Run) {
 		}
 		return nil
 	}()
-	stateBody := func(k int) *ssa.BasicBlock {
+	// the select's "received, not closed" flag (case v, ok := <-ch)
+	var selOk ssa.Value
+	for _, ref := range *sel.Referrers() {
+		if ex, ok := ref.(*ssa.Extract); ok && ex.Index == 1 {
+			selOk = ex
+		}
+	}
+	// closedSide(b): b ends in a test of that flag; returns the successor taken when the channel
+	// was closed and the one taken when a value was received
+	closedSide := func(b *ssa.BasicBlock) (closed, open *ssa.BasicBlock) {
+		if selOk == nil || len(b.Instrs) == 0 {
+			return nil, nil
+		}
+		iff, ok := b.Instrs[len(b.Instrs)-1].(*ssa.If)
+		if !ok {
+			return nil, nil
+		}
+		if iff.Cond == selOk {
+			return b.Succs[1], b.Succs[0]
+		}
+		if n, ok := iff.Cond.(*ssa.UnOp); ok && n.Op == token.NOT && n.X == selOk {
+			return b.Succs[0], b.Succs[1]
+		}
+		return nil, nil
+	}
+	stateBody0 := func(k int) *ssa.BasicBlock {
 		for _, ins := range allInstrs(R) {
 			iff, ok := ins.(*ssa.If)
 			if !ok {
@@ -665,6 +820,17 @@ func ruleAMR(r *Run) {
 			}
 		}
 		return nil
+	}
+	// a case that starts with `if !ok { … }` continues, for a received value, on the ok side;
+	// the closed side is judged by the reducer-exit obligation below
+	stateBody := func(k int) *ssa.BasicBlock {
+		b := stateBody0(k)
+		if b != nil {
+			if cl, op := closedSide(b); cl != nil && len(op.Preds) == 1 {
+				return op
+			}
+		}
+		return b
 	}
 	recvVal := func(k int) ssa.Value {
 		// the k-th receive state's value is extract #(2+number of earlier recv states)
@@ -687,6 +853,7 @@ func ruleAMR(r *Run) {
 	selBlock := sel.Block()
 	doneSeen := map[ssa.Instruction]bool{}
 	var cDone *ssa.MakeChan
+	var doneBody *ssa.BasicBlock
 	sawRes, sawErr := false, false
 	for k, st := range sel.States {
 		if st.Dir != types.RecvOnly {
@@ -788,7 +955,7 @@ func ruleAMR(r *Run) {
 			if mn != 1 || mx != 1 || cyc {
 				a.bad("A4", "done-count-err", sel, fmt.Sprintf("the C_err case calls wg.Done() between %d and %d times per received error (exactly 1 required): Wait never returns or returns early", mn, mx))
 			} else if good {
-				a.ok("A4", "err-case", est, "receive → errs = extend(errs, err) → exactly one wg.Done() → back to select")
+				a.ok("A4", "err-case", est, "receive → errs = extend(errs, err) → exactly one wg.Done() → back to select (the stored list depends on the received error; how many entries the extension adds for it — none for an empty ErrorList — is not checked)")
 			}
 		default:
 			// candidate done channel: its body must leave the reducer without further effects
@@ -797,6 +964,7 @@ func ruleAMR(r *Run) {
 				continue
 			}
 			cDone = mc
+			doneBody = body
 			okRet := true
 			seenB := map[*ssa.BasicBlock]bool{}
 			var walk func(b *ssa.BasicBlock)
@@ -824,6 +992,30 @@ func ruleAMR(r *Run) {
 			} else {
 				a.ok("A7", "reducer-exit", sel, "the reducer returns when it receives on C_done")
 			}
+		}
+	}
+	// A7a: the reducer leaves only through the done case. Any other return (out of a result or
+	// error case, through a loop condition) lets it go while items are outstanding: the remaining
+	// workers block on their send for ever and Wait never returns. A return taken only when a
+	// received channel was closed is harmless: the helper closes its channels after the join and
+	// the handshake (A6, A7, A9).
+	if doneBody != nil {
+		for _, ret := range returnsOf(R) {
+			rb := ret.Block()
+			if rb == doneBody || (len(doneBody.Preds) == 1 && doneBody.Dominates(rb)) {
+				continue
+			}
+			viaClosed := false
+			for _, b := range R.Blocks {
+				if cl, _ := closedSide(b); cl != nil && len(cl.Preds) == 1 && (cl == rb || cl.Dominates(rb)) {
+					viaClosed = true
+				}
+			}
+			if viaClosed {
+				a.ok("A7", "reducer-exit-on-closed", ret, "return taken only when a helper channel was closed, which happens after the join and the handshake")
+				continue
+			}
+			a.bad("A7", "reducer-exit-early", ret, "the reducer goroutine can return on a path that is not the done case (out of a result/error case or through a loop condition): with items still outstanding their workers block on the send for ever and wg.Wait() never returns")
 		}
 	}
 	if !sawRes || !sawErr {
@@ -861,7 +1053,7 @@ func ruleAMR(r *Run) {
 	}
 
 	// ---- A5: count ----------------------------------------------------------------------
-	a.checkAdd(wgAdd, wgCell, G, Gr, loop)
+	a.checkAdd(wgAdd, wgCell, Gtop, Gr, loop)
 
 	// ---- A6: join -----------------------------------------------------------------------
 	wait := wgWait[0]
@@ -871,6 +1063,10 @@ func ruleAMR(r *Run) {
 	}
 	okJoin := true
 	for _, ret := range returnsOf(fn) {
+		if a.emptyRets[ret] {
+			a.ok("A6", "empty-payload-return", ret, "return before any goroutine is started, taken only when len(payload) == 0: there is nothing to map, reduce or join")
+			continue
+		}
 		if !instrDominates(wait, ret) {
 			a.bad("A6", "return-without-wait", ret, "a return of the helper is not dominated by wg.Wait(): it can return before all items are mapped and reduced")
 			okJoin = false
@@ -880,7 +1076,7 @@ func ruleAMR(r *Run) {
 		a.bad("A6", "wait-in-loop", wait, "wg.Wait() is inside the spawning loop")
 		okJoin = false
 	}
-	if !lp.header.Dominates(wait.Block()) {
+	if !lp.header.Dominates(wait.Block()) || (lp.iter != nil && !instrDominates(lp.iter.call, wait)) {
 		a.bad("A6", "wait-before-spawn", wait, "wg.Wait() is not ordered after the spawning loop")
 		okJoin = false
 	}
@@ -906,13 +1102,14 @@ func ruleAMR(r *Run) {
 			if instrDominates(wait, s) {
 				all := true
 				for _, ret := range returnsOf(fn) {
-					if !instrDominates(s, ret) {
+					if !instrDominates(s, ret) && !a.emptyRets[ret] {
 						all = false
 					}
 				}
-				// and before any rundefers
+				// and before any rundefers (those of an empty-payload return run before any
+				// goroutine exists)
 				for _, ins := range allInstrs(fn) {
-					if _, ok := ins.(*ssa.RunDefers); ok && !instrDominates(s, ins) && ins.Block() != fn.Recover {
+					if _, ok := ins.(*ssa.RunDefers); ok && !instrDominates(s, ins) && ins.Block() != fn.Recover && !a.emptyRetBlock(ins.Block()) {
 						all = false
 					}
 				}
@@ -935,6 +1132,10 @@ func ruleAMR(r *Run) {
 		mc := chanOf(c.Common().Args[0])
 		if mc == nil {
 			a.bad("A9", "close-unknown", c, "close of a channel that is not one of the helper's own")
+			continue
+		}
+		if c.Parent() != fn && a.deferredOnly(c.Parent()) {
+			a.ok("A9", "deferred-close", c, "inside a literal that only runs as a deferred call of the helper: after Wait and the done handshake (A6, A7)")
 			continue
 		}
 		if c.Parent() != fn {
@@ -984,11 +1185,80 @@ func mustPassUntil(from, until *ssa.BasicBlock, pred func(ssa.Instruction) bool)
 
 type payloadLoop struct {
 	header *ssa.BasicBlock
-	index  ssa.Value // the value that is the element index inside the body
+	index  ssa.Value     // the value that is the element index inside the body
+	iter   *itemIterator // set when the loop is a library iterator calling a literal per element
+}
+
+// itemIterator: a call, in the helper's body, of a library function that calls its function
+// argument synchronously exactly once for every element of its slice argument, passing the
+// element (and its index).
+type itemIterator struct {
+	call ssa.CallInstruction
+	lit  *ssa.Function // the callback literal
+	name string
+	elem *ssa.Parameter // the callback's element parameter
+	idx  *ssa.Parameter // the callback's index parameter (may be nil)
+}
+
+// perItemIterators: qualified name → positions of (slice, callback) arguments and of the
+// (element, index) parameters of the callback. lo.ForEach is `for i, item := range collection
+// { iteratee(item, i) }` (samber/lo slice.go).
+var perItemIterators = map[string][4]int{
+	"github.com/samber/lo.ForEach": {0, 1, 0, 1},
+}
+
+// itemIteratorOf: site lies in a literal whose only use is as the callback of a per-element
+// iterator called by the helper's body on payload.
+func (a *amr) itemIteratorOf(site ssa.CallInstruction) *itemIterator {
+	lit := site.Parent()
+	if lit == nil || lit.Parent() != a.fn {
+		return nil
+	}
+	var found *itemIterator
+	uses := 0
+	for _, ins := range allInstrs(a.fn) {
+		mc, ok := ins.(*ssa.MakeClosure)
+		if !ok || mc.Fn != ssa.Value(lit) {
+			continue
+		}
+		for _, ref := range *mc.Referrers() {
+			uses++
+			call, ok := ref.(*ssa.Call)
+			if !ok {
+				continue
+			}
+			sc := call.Call.StaticCallee()
+			if sc == nil {
+				continue
+			}
+			name := extName(sc)
+			pos, known := perItemIterators[name]
+			if !known || len(call.Call.Args) <= pos[0] || len(call.Call.Args) <= pos[1] {
+				continue
+			}
+			if unwrap(call.Call.Args[pos[1]]) != ssa.Value(mc) || !a.isParam(call.Call.Args[pos[0]], a.payload) {
+				continue
+			}
+			it := &itemIterator{call: call, lit: lit, name: name}
+			if pos[2] < len(lit.Params) {
+				it.elem = lit.Params[pos[2]]
+			}
+			if pos[3] < len(lit.Params) {
+				it.idx = lit.Params[pos[3]]
+			}
+			if it.elem != nil {
+				found = it
+			}
+		}
+	}
+	if uses != 1 {
+		return nil
+	}
+	return found
 }
 
 // payloadLoop checks that the spawn G is executed exactly once for every index of payload.
-func (a *amr) payloadLoop(G ssa.CallInstruction, loop map[*ssa.BasicBlock]bool) *payloadLoop {
+func (a *amr) payloadLoop(G ssa.Instruction, loop map[*ssa.BasicBlock]bool) *payloadLoop {
 	if len(loop) == 0 {
 		a.bad("A1", "spawn-not-in-loop", G, "the worker is not spawned inside a loop over payload")
 		return nil
@@ -1047,6 +1317,11 @@ func (a *amr) payloadLoop(G ssa.CallInstruction, loop map[*ssa.BasicBlock]bool) 
 			exits := 0
 			for _, s := range b.Succs {
 				if !loop[s] {
+					// the `panic("blocking select matched no case")` arm go/ssa adds to a select
+					// dispatch (or any other panic) is not a way to leave the loop quietly
+					if _, isPanic := s.Instrs[len(s.Instrs)-1].(*ssa.Panic); isPanic {
+						continue
+					}
 					exits++
 				}
 			}
@@ -1088,7 +1363,9 @@ func (a *amr) payloadLoop(G ssa.CallInstruction, loop map[*ssa.BasicBlock]bool) 
 		a.bad("A1", "loop-induction", iff, "loop index is not a simple induction variable")
 		return nil
 	}
-	okInd := len(phi.Edges) == 2
+	// every edge from outside the loop carries the initial value, every back edge (there can be
+	// several: each select case may jump back on its own) carries index+1
+	okInd := len(phi.Edges) >= 2
 	if okInd {
 		nInit, nStep := 0, 0
 		for i, e := range phi.Edges {
@@ -1096,14 +1373,18 @@ func (a *amr) payloadLoop(G ssa.CallInstruction, loop map[*ssa.BasicBlock]bool) 
 			if !loop[pred] {
 				if isIntConst(e, init) {
 					nInit++
+				} else {
+					okInd = false
 				}
 			} else {
 				if add, ok := e.(*ssa.BinOp); ok && add.Op == token.ADD && add.X == ssa.Value(phi) && isIntConst(add.Y, 1) {
 					nStep++
+				} else {
+					okInd = false
 				}
 			}
 		}
-		okInd = nInit == 1 && nStep == 1
+		okInd = okInd && nInit >= 1 && nStep >= 1
 	}
 	if !okInd {
 		a.bad("A1", "loop-induction", iff, "loop index does not start at the first element and advance by one: items skipped or repeated")
@@ -1144,6 +1425,33 @@ func (a *amr) checkItemArg(S, G ssa.CallInstruction, lp *payloadLoop, loop map[*
 	var isItemTop func(v ssa.Value) (bool, string)
 	isItemTop = func(v ssa.Value) (bool, string) {
 		v = unwrap(v)
+		if it := lp.iter; it != nil {
+			if v == ssa.Value(it.elem) {
+				return true, "the element the iterator passes to its callback"
+			}
+			if ld, ok := v.(*ssa.UnOp); ok && ld.Op == token.MUL {
+				if ia, ok := ld.X.(*ssa.IndexAddr); ok {
+					if a.isParam(ia.X, a.payload) && it.idx != nil && unwrap(ia.Index) == ssa.Value(it.idx) {
+						return true, "payload[index the iterator passes to its callback]"
+					}
+					return false, "indexes something other than payload[callback index]"
+				}
+				// the callback's own (spilled) parameter or a local copy: one per invocation
+				if al, ok := a.cell(ld.X).(*ssa.Alloc); ok && al.Parent() == it.lit {
+					sts := storesTo(al)
+					if len(sts) == 0 {
+						return false, "reads a variable that is never assigned"
+					}
+					for _, st := range sts {
+						if ok, why := isItemTop(st.Val); !ok {
+							return false, why
+						}
+					}
+					return true, "per-invocation variable of the iterator callback holding the element"
+				}
+			}
+			return false, "is not the element the iterator passes to its callback"
+		}
 		if ld, ok := v.(*ssa.UnOp); ok && ld.Op == token.MUL {
 			if ia, ok := ld.X.(*ssa.IndexAddr); ok {
 				if a.isParam(ia.X, a.payload) && ia.Index == lp.index {
@@ -1151,7 +1459,7 @@ func (a *amr) checkItemArg(S, G ssa.CallInstruction, lp *payloadLoop, loop map[*
 				}
 				return false, "indexes something other than payload[loop index]"
 			}
-			if al, ok := ld.X.(*ssa.Alloc); ok {
+			if al, ok := a.cell(ld.X).(*ssa.Alloc); ok && al.Parent() == a.fn {
 				if !loop[al.Block()] {
 					return false, "reads a variable shared by all iterations"
 				}
@@ -1185,7 +1493,7 @@ func (a *amr) checkItemArg(S, G ssa.CallInstruction, lp *payloadLoop, loop map[*
 				if a.isParam(ia.X, a.payload) {
 					if p, ok := ia.Index.(*ssa.Parameter); ok && p.Parent() == S.Parent() {
 						gi := paramIndex(p)
-						if gi < len(G.Common().Args) && G.Common().Args[gi] == lp.index {
+						if gi < len(G.Common().Args) && ((lp.index != nil && G.Common().Args[gi] == lp.index) || (lp.iter != nil && lp.iter.idx != nil && unwrap(G.Common().Args[gi]) == ssa.Value(lp.iter.idx))) {
 							a.ok("A1c", "item-argument", S, "payload[i] with i passed to the worker at the spawn")
 							return
 						}
@@ -1193,6 +1501,14 @@ func (a *amr) checkItemArg(S, G ssa.CallInstruction, lp *payloadLoop, loop map[*
 				}
 			}
 			cell := a.cell(x.X)
+			if al, ok := cell.(*ssa.Alloc); ok && lp.iter != nil && al.Parent() == lp.iter.lit {
+				if ok, why := isItemTop(x); ok {
+					a.ok("A1c", "item-argument", S, why)
+				} else {
+					a.bad("A1c", "item-argument", S, "the value the worker maps "+why+": items can be mapped twice or not at all")
+				}
+				return
+			}
 			if al, ok := cell.(*ssa.Alloc); ok && al.Parent() == a.fn {
 				if !loop[al.Block()] {
 					a.bad("A1c", "captured-loop-variable", S, "the worker reads a captured variable that is shared by all iterations of the payload loop (module is go 1.18: one variable per loop): by the time a worker runs the variable may already hold a later item, so some items are mapped twice and others never")
@@ -1233,7 +1549,7 @@ func (a *amr) errsCell() *ssa.Alloc {
 	return out
 }
 
-func (a *amr) checkAdd(adds []ssa.CallInstruction, wgCell ssa.Value, G, Gr ssa.CallInstruction, loop map[*ssa.BasicBlock]bool) {
+func (a *amr) checkAdd(adds []ssa.CallInstruction, wgCell ssa.Value, G ssa.Instruction, Gr ssa.CallInstruction, loop map[*ssa.BasicBlock]bool) {
 	if len(adds) != 1 {
 		var at ssa.Instruction
 		if len(adds) > 0 {
@@ -1244,7 +1560,7 @@ func (a *amr) checkAdd(adds []ssa.CallInstruction, wgCell ssa.Value, G, Gr ssa.C
 	}
 	add := adds[0]
 	c := add.Common()
-	if a.cell(c.Args[0]) != wgCell {
+	if a.wgOf(c.Args[0]) != wgCell {
 		a.bad("A5", "add-other-wg", add, "Add is called on a different WaitGroup than Wait")
 		return
 	}
@@ -1265,7 +1581,7 @@ func (a *amr) checkAdd(adds []ssa.CallInstruction, wgCell ssa.Value, G, Gr ssa.C
 		a.bad("A5", "add-count", add, "wg.Add is not called with len(payload): Wait returns early (count too small) or never (too large)")
 		return
 	}
-	if !instrDominates(add, Gr) || !(add.Block().Dominates(G.Block())) {
+	if !instrDominates(add, Gr) || !instrDominates(add, G) {
 		a.bad("A5", "add-after-spawn", add, "wg.Add does not precede the spawns")
 		return
 	}
@@ -1292,8 +1608,22 @@ func (a *amr) checkReads(accCell, errsCell *ssa.Alloc, wait ssa.CallInstruction,
 				if f == a.fn && x.Val == ssa.Value(a.accP) && c == ssa.Value(accCell) && instrDominates(x, wait) && !blockInCycle(x.Block()) {
 					continue // entry spill of the parameter
 				}
+				if f == a.fn && a.pre[x.Block()] && c == ssa.Value(errsCell) && isNilConst(unwrap(x.Val)) {
+					continue // the (still empty) list is set to nil before any goroutine exists
+				}
 				if f == a.fn && instrDominates(wait, x) {
-					continue // after the join the caller owns the cells again
+					// after the join the caller owns the cells again, but what it returns must still be
+					// what the reducer accumulated: only re-storing the cell's own value (the result
+					// spill of a named result) or nil for an empty list leaves that intact
+					if ld, ok := unwrap(x.Val).(*ssa.UnOp); ok && ld.Op == token.MUL && a.cell(ld.X) == c && instrDominates(wait, ld) {
+						continue
+					}
+					if c == ssa.Value(errsCell) && isNilConst(unwrap(x.Val)) && a.underEmptyErrs(x.Block(), errsCell) {
+						continue
+					}
+					okAll = false
+					a.bad("A8", "result-rewritten-after-join", x, "acc/errs is assigned a new value between the join and the return: what the helper returns is no longer what the reducer accumulated (a shortened or filtered error list loses errors)")
+					continue
 				}
 				okAll = false
 				a.bad("A8", "shared-cell-write", x, "acc/errs is written outside the reducer goroutine before the join: data race with the reducer")
@@ -1310,6 +1640,12 @@ func (a *amr) checkReads(accCell, errsCell *ssa.Alloc, wait ssa.CallInstruction,
 				}
 				if f == a.fn && instrDominates(wait, x) {
 					continue
+				}
+				if f == a.fn && a.pre[x.Block()] {
+					continue // no goroutine has been started yet: nobody else writes the cell
+				}
+				if f == a.fn && a.fn.Recover != nil && x.Block() == a.fn.Recover {
+					continue // go/ssa's recover block reloads named results; it runs only after a recovered panic
 				}
 				okAll = false
 				a.bad("A8", "read-before-join", x, "acc/errs is read outside the reducer before wg.Wait(): the value may miss reductions/errors")
@@ -1341,7 +1677,7 @@ func (a *amr) checkReads(accCell, errsCell *ssa.Alloc, wait ssa.CallInstruction,
 			}
 			if isNilConst(v) {
 				// nil only when the list is empty
-				if a.underEmptyErrs(ret, errsCell) {
+				if a.underEmptyErrs(ret.Block(), errsCell) || a.emptyRets[ret] {
 					continue
 				}
 				a.bad("A8", "errors-dropped", ret, "the helper returns a nil error list on a path not guarded by len(errs) == 0: errors are lost")
@@ -1399,8 +1735,43 @@ func (a *amr) retRoots(v ssa.Value, ret *ssa.Return) []ssa.Value {
 	return []ssa.Value{v}
 }
 
-// underEmptyErrs: the return's block is on the len(errs)==0 side of a test of the errs cell.
-func (a *amr) underEmptyErrs(ret *ssa.Return, errsCell *ssa.Alloc) bool {
+func (a *amr) emptyRetBlock(b *ssa.BasicBlock) bool {
+	for ret := range a.emptyRets {
+		if ret.Block() == b {
+			return true
+		}
+	}
+	return false
+}
+
+// underEmptyErrs: block b is on the "list is empty" side of a test of the errs cell.
+func (a *amr) underEmptyErrs(b *ssa.BasicBlock, errsCell *ssa.Alloc) bool {
+	isErrs := func(v ssa.Value) bool {
+		ld, ok := unwrap(v).(*ssa.UnOp)
+		return ok && ld.Op == token.MUL && a.cell(ld.X) == ssa.Value(errsCell)
+	}
+	return a.underEmpty(b, isErrs)
+}
+
+// underEmptyPayload: block b is on the len(payload)==0 side of a test of the payload parameter.
+func (a *amr) underEmptyPayload(b *ssa.BasicBlock) bool {
+	return a.underEmpty(b, func(v ssa.Value) bool { return a.isParam(v, a.payload) })
+}
+
+// underEmpty: block b is reached only through the "empty" side of a test of the slice
+// recognised by isVal: len(x) == 0, len(x) > 0, len(x) < 1, 0 < len(x), x == nil, x != nil …
+// (a nil slice is an empty slice; `x == nil` being false says nothing, which is the safe side).
+func (a *amr) underEmpty(b *ssa.BasicBlock, isVal func(ssa.Value) bool) bool {
+	isLen := func(v ssa.Value) bool {
+		c, ok := v.(*ssa.Call)
+		if !ok {
+			return false
+		}
+		if bi, ok := c.Call.Value.(*ssa.Builtin); !ok || bi.Name() != "len" {
+			return false
+		}
+		return isVal(c.Call.Args[0])
+	}
 	for _, ins := range allInstrs(a.fn) {
 		iff, ok := ins.(*ssa.If)
 		if !ok {
@@ -1410,29 +1781,37 @@ func (a *amr) underEmptyErrs(ret *ssa.Return, errsCell *ssa.Alloc) bool {
 		if !ok {
 			continue
 		}
-		lenOfErrs := func(v ssa.Value) bool {
-			c, ok := v.(*ssa.Call)
-			if !ok {
-				return false
+		op, x, y := bo.Op, bo.X, bo.Y
+		if !isLen(x) && !isVal(x) {
+			// constant on the left: mirror the comparison
+			x, y = y, x
+			switch op {
+			case token.LSS:
+				op = token.GTR
+			case token.GTR:
+				op = token.LSS
+			case token.LEQ:
+				op = token.GEQ
+			case token.GEQ:
+				op = token.LEQ
 			}
-			if b, ok := c.Call.Value.(*ssa.Builtin); !ok || b.Name() != "len" {
-				return false
-			}
-			ld, ok := unwrap(c.Call.Args[0]).(*ssa.UnOp)
-			return ok && ld.Op == token.MUL && a.cell(ld.X) == ssa.Value(errsCell)
 		}
 		var emptySide *ssa.BasicBlock
 		switch {
-		case lenOfErrs(bo.X) && isIntConst(bo.Y, 0) && (bo.Op == token.GTR || bo.Op == token.NEQ):
+		case isVal(x) && isNilConst(unwrap(y)) && op == token.NEQ:
 			emptySide = iff.Block().Succs[1]
-		case lenOfErrs(bo.X) && isIntConst(bo.Y, 0) && bo.Op == token.EQL:
+		case isVal(x) && isNilConst(unwrap(y)) && op == token.EQL:
 			emptySide = iff.Block().Succs[0]
-		case lenOfErrs(bo.X) && isIntConst(bo.Y, 1) && bo.Op == token.LSS:
+		case isLen(x) && isIntConst(y, 0) && (op == token.GTR || op == token.NEQ):
+			emptySide = iff.Block().Succs[1]
+		case isLen(x) && isIntConst(y, 0) && (op == token.EQL || op == token.LEQ):
 			emptySide = iff.Block().Succs[0]
-		case lenOfErrs(bo.X) && isIntConst(bo.Y, 1) && bo.Op == token.GEQ:
+		case isLen(x) && isIntConst(y, 1) && op == token.LSS:
+			emptySide = iff.Block().Succs[0]
+		case isLen(x) && isIntConst(y, 1) && op == token.GEQ:
 			emptySide = iff.Block().Succs[1]
 		}
-		if emptySide != nil && len(emptySide.Preds) == 1 && (emptySide == ret.Block() || emptySide.Dominates(ret.Block())) {
+		if emptySide != nil && len(emptySide.Preds) == 1 && (emptySide == b || emptySide.Dominates(b)) {
 			return true
 		}
 	}
